@@ -466,7 +466,7 @@ struct C06 : Property
 		if (destroyed.size() != alive)
 			ctx.fail("C06:teardown-release-mismatch", "destroying the object released %zu value(s), it held %zu", destroyed.size(), alive);
 		if (!g_alloc.live.empty())
-			ctx.fail("C06:leak@" + g_alloc.site_of(g_alloc.live.begin()->second), "%zu allocation(s) remain after the object was destroyed:%s", g_alloc.live.size(),
+			ctx.fail("C06:leak@" + g_alloc.first_live_site(), "%zu allocation(s) remain after the object was destroyed:%s", g_alloc.live.size(),
 			         g_alloc.describe_live().c_str());
 	}
 
@@ -708,7 +708,7 @@ struct C06 : Property
 		if (freed.size() != model.size())
 			ctx.fail("C06:teardown-release-mismatch", "lh_table_free released %zu entries, the table held %zu", freed.size(), model.size());
 		if (!g_alloc.live.empty())
-			ctx.fail("C06:leak@" + g_alloc.site_of(g_alloc.live.begin()->second), "%zu allocation(s) remain after lh_table_free:%s", g_alloc.live.size(), g_alloc.describe_live().c_str());
+			ctx.fail("C06:leak@" + g_alloc.first_live_site(), "%zu allocation(s) remain after lh_table_free:%s", g_alloc.live.size(), g_alloc.describe_live().c_str());
 	}
 
 	void run(const Plan &p, RunCtx &ctx) override
